@@ -67,6 +67,8 @@ PROPS["C09"] = {"level": "exploration",
     "assumptions": ["part R: real goroutines and real time, test binary built with -race; the interleavings explored are whatever the Go scheduler produces (16 cores); a watchdog hit is inconclusive (exit 2), never a violation", "data races are those the race detector observes in these executions"],
     "parts": [dict(H("TestC09Race", "R", 40, 400, qs=2, ts=16), race=True)]}
 
+PROPS["C02"]["parts"].append(H("TestC02Backpressure", "Wbp", 60, 600, qs=2, ts=16, hang_is_violation=True))
+PROPS["C04"]["parts"].append(H("TestC04Backpressure", "Wbp", 60, 600, qs=1, ts=16, hang_is_violation=True))
 PROPS["C10"]["parts"].append(dict(H("TestC10IDsExhaustive", "ids", 1, 1, qs=1, ts=1), rapid=False))
 
 META = {
